@@ -437,15 +437,55 @@ def h_fused_mismatch(V, sym, mode, lazy):
         V.check(f'vdot({i},{j})-over-fused-legs-equals-unfused', v == (D[i] * D[j]).sum())
 
 
+def h_fused_trace(V, sym, masks, variant):
+    """
+    trace over two HARD-fused legs whose constituents have different sector content (the masks restrict both legs to the common
+    subspace): equals the unfused dense trace, missing sectors acting as zeros.  Variants move the traced legs away from their
+    native positions: a pending lazy transpose, a meta-fused leg in front of them (logical index != native index).
+    """
+    import numpy as np
+    import yastn
+    from contracts.c01 import make_leg, symbolic_tensor, dense, arrays_equal, FULL
+    m0, m1, m2, m3 = masks
+    e, g = make_leg(sym, 1, FULL), make_leg(sym, -1, 0b0111)
+    legs = [e, g, make_leg(sym, 1, m0), make_leg(sym, 1, m1), make_leg(sym, -1, m2), make_leg(sym, -1, m3)]
+    T = symbolic_tensor(V, 'a', sym, legs)
+    full = {0: e, 1: g, 2: make_leg(sym, 1, FULL), 3: make_leg(sym, 1, FULL), 4: make_leg(sym, -1, FULL), 5: make_leg(sym, -1, FULL)}
+    D = dense(V, T, full)
+    want = np.einsum('egabab->eg', D)
+    F = V.call(T.fuse_legs, axes=(0, 1, (2, 3), (4, 5)), mode='hard')            # (e, g, f0, f1)
+    if variant == 'in-place':
+        out = V.outcome(F.trace, axes=(2, 3))
+    elif variant == 'lazy-transpose':
+        out = V.outcome(V.call(F.transpose, (2, 0, 3, 1)).trace, axes=(0, 2))    # logical (f0, e, f1, g)
+    elif variant == 'lazy-transpose-swapped':
+        out = V.outcome(V.call(F.transpose, (3, 2, 0, 1)).trace, axes=(1, 0))    # logical (f1, f0, e, g)
+    elif variant == 'meta-fused-leg-in-front':
+        out = V.outcome(V.call(F.fuse_legs, axes=((0, 1), 2, 3), mode='meta').trace, axes=(1, 2))
+    elif variant == 'meta-fused-leg-in-front-swapped':
+        out = V.outcome(V.call(F.fuse_legs, axes=((0, 1), 3, 2), mode='meta').trace, axes=(2, 1))
+    V.check('trace-over-fused-legs-with-different-content-accepted', out.exc is None)
+    if out.exc is not None:
+        return
+    c = out.value
+    if variant.startswith('meta'):
+        c = V.call(c.unfuse_legs, axes=0)
+    arrays_equal(V, 'trace-over-fused-legs-equals-the-unfused-trace', dense(V, c, {0: e, 1: g}), want)
+
+
 def units(tier):
     U = []
     th = tier == 'thorough'
+    FULL_ = 0b1111
     for sym in (ALL_SYMS if th else ('Z2', 'U1', 'Z3', 'Z2xU1')):
         if not MOD[sym]:
             continue
         for mode in ('hard', 'meta'):
             for lazy in (False, True):
                 U.append(('h_fused_mismatch', f"{sym},{mode},lazy={lazy}", dict(sym=sym, mode=mode, lazy=lazy)))
+        for masks in ((0b1110, 0b0111, 0b0111, 0b1101), (0b0011, 0b0001, 0b0001, 0b0011), (FULL_, FULL_, FULL_, FULL_)):
+            for variant in ('in-place', 'lazy-transpose', 'lazy-transpose-swapped', 'meta-fused-leg-in-front', 'meta-fused-leg-in-front-swapped'):
+                U.append(('h_fused_trace', f"{sym},masks={masks},{variant}", dict(sym=sym, masks=masks, variant=variant)))
     for sym in (ALL_SYMS if th else ('dense', 'Z2', 'U1', 'U1xU1xZ2')):
         for case in ('matrix-2x2-one-missing', 'skipped-position', 'common-leg', 'column', 'lazy-operand', 'fused-operands', 'contraction-over-blocked-leg', 'common-legs-counted-from-the-end'):
             U.append(('h_block_values', f"{sym},{case}", dict(sym=sym, case=case)))
